@@ -19,7 +19,7 @@ THEOREMS = [_T + n for n in (
     'C15_reject_flags', 'C15_decision', 'C15_reject_where_partial', 'C15_validate_iff', 'C15_no_crash',
     'C15_null_partition_empty', 'C15_rows_nullsafe', 'C15_reject_where_fixed', 'C15_validateDeep_iff',
     'C15_rows_rev_fixed',
-    'C15_live_variant', 'C15_reject_where', 'C15_rows_rev',
+    'C15_live_variant', 'C15_reject_where', 'C15_rows_rev', 'C15_rows_spellings', 'C15_rows_stmt',
     'C15_witness_1', 'C15_witness_null', 'C15_full_false')]
 ASSUME = [
     'plan_timeseries_predictor / ts_utils are hand-modelled (MindsVerif.TS.planTS); tie = plan correspondence stream (exact WHERE trees of every generated select)',
@@ -62,8 +62,9 @@ def _imports():
 def meta_dict(case):
     if case.get('meta'):        # name-collision stream: its own order / group column names
         return {'tp3': dict(case['meta'], timeseries=True, window=case['window'])}
-    return {'tp3': {'timeseries': True, 'order_by_column': TIME,
-                    'group_by_columns': GROUPS[:case['nG']], 'window': case['window']}}
+    models = case.get('models') or {'tp3': case['window']}      # predictor name -> window
+    return {name: {'timeseries': True, 'order_by_column': TIME,
+                   'group_by_columns': GROUPS[:case['nG']], 'window': w} for name, w in models.items()}
 
 
 NAME_SETS = [('saledate', ['vendor_id', 'type']), ('pickup_hour', ['day', 'Region']), ('Ts', ['grp', 'sub_grp'])]
@@ -206,18 +207,52 @@ def absW(node, nG):
     return '(O %d)' % (1 if mentions_foreign(node, nG) else 0)
 
 
-def fetch_steps(plan, nG):
-    """-> (partition_step|None, [FetchDataframeStep...], data_step, index of the data step)"""
+def absW_safe(node, nG):
+    """tokens of the abstraction (for searching it); '' when the tree cannot be abstracted"""
+    try:
+        return absW(node, nG).replace('(', ' ').replace(')', ' ').split()
+    except Unabstractable:
+        return []
+
+
+def ts_joins(plan):
+    """every time-series join of a plan, in plan order, found through the step references (not positions):
+    list of dict(part=partition step|None, subs=[fetch steps], data=data step, ap=apply step, jn=join step|None,
+    lim=LimitOffsetStep applied to the join result|None)"""
     _, _, _, S, _, _ = _imports()
-    st = plan.steps
-    if nG == 0:
-        d = st[0]
-        subs = d.steps if isinstance(d, S.MultipleSteps) else [d]
-        return None, subs, d, 0
-    d = st[1]
-    inner = d.step
-    subs = inner.steps if isinstance(inner, S.MultipleSteps) else [inner]
-    return st[0], subs, d, 1
+    out = []
+    for ap in plan.steps:
+        if not isinstance(ap, S.ApplyTimeseriesPredictorStep):
+            continue
+        data = plan.steps[ap.dataframe.step_num]
+        if isinstance(data, S.MapReduceStep):
+            part = plan.steps[data.values.step_num]
+            inner = data.step
+        else:
+            part, inner = None, data
+        subs = inner.steps if isinstance(inner, S.MultipleSteps) else [inner]
+        jn = next((x for x in plan.steps if isinstance(x, S.JoinStep) and ap.result in (x.left, x.right)), None)
+        lim = next((x for x in plan.steps if isinstance(x, S.LimitOffsetStep) and jn is not None
+                    and x.dataframe == jn.result), None)
+        out.append(dict(part=part, subs=subs, data=data, ap=ap, jn=jn, lim=lim))
+    return out
+
+
+class GlueError(Exception):
+    pass
+
+
+def fetch_steps(plan, case):
+    """the time-series join number case['join_index'] of the plan -> (partition step|None, fetch steps, data step, info)"""
+    js = ts_joins(plan)
+    k = case.get('join_index', 0)
+    if case.get('n_joins', 1) != len(js):
+        raise GlueError('%d time-series joins planned for a statement with %d' % (len(js), case.get('n_joins', 1)))
+    j = js[k]
+    if (j['part'] is None) != (case['nG'] == 0):
+        raise GlueError('partition step %s for a model with %d group columns' % (
+            'missing' if j['part'] is None else 'present', case['nG']))
+    return j['part'], j['subs'], j['data'], j
 
 
 def canon_real(case):
@@ -231,7 +266,7 @@ def canon_real(case):
         return 'crash', None, '%s: %s' % (type(e).__name__, str(e)[:200])
     nG = case['nG']
     try:
-        part, subs, data, di = fetch_steps(plan, nG)
+        part, subs, data, j = fetch_steps(plan, case)
         if part is None:
             ps = 'none'
         else:
@@ -240,15 +275,14 @@ def canon_real(case):
         for f in subs:
             lim = '-' if f.query.limit is None else str(f.query.limit.value)
             sels.append(absW(f.query.where, nG) + '@' + lim)
-        ap = plan.steps[di + 1]
+        ap = j['ap']
         otf = '-' if ap.output_time_filter is None else absW(ap.output_time_filter, nG)
-        lim = '-'
-        for s in plan.steps:
-            if isinstance(s, S.LimitOffsetStep):
-                lim = str(s.limit)
+        lim = '-' if j['lim'] is None else str(j['lim'].limit)
         return 'ok part=%s sels=%s otf=%s limit=%s' % (ps, ';'.join(sels), otf, lim), plan, None
     except Unabstractable as e:
         return 'unabstractable', plan, str(e)
+    except GlueError as e:
+        return 'glue: %s' % e, plan, str(e)
 
 
 def model_line(case):
@@ -319,6 +353,10 @@ def gen_tc(rng, cls):
         return ('%d >= %s' % (c, tid), lambda v: v <= c, None, '(b ge (c %d) (i t))' % c)
     if cls == 'rev_eq':
         return ('%d = %s' % (c, tid), lambda v: False, lambda v: v <= c, '(b eq (c %d) (i t))' % c)
+    if cls == 'rev_gtLatest':     # LATEST < t  ==  t > LATEST
+        return ('LATEST < %s' % tid, lambda v: False, lambda v: True, '(b lt L (i t))')
+    if cls == 'rev_eqLatest':
+        return ('LATEST = %s' % tid, lambda v: False, lambda v: True, '(b eq L (i t))')
     raise ValueError(cls)
 
 
@@ -337,18 +375,22 @@ def nest(rng, leaves):
     return ('%s and %s' % (ls, rs), '(b and %s %s)' % (la, ra))
 
 
-def gen_case(rng, kind=None):
-    """kind: 'dom' (in the theorem domain), 'rev' (order column on the right), 'rej' (must be rejected), 'misc'"""
-    nG = rng.choice([0, 1, 1, 2, 2])
-    window = rng.choice([0, 1, 1, 2, 3, 5])
-    kind = kind or rng.choice(['dom'] * 6 + ['rev', 'rej', 'rej', 'misc'])
+REV_CLASSES = ['rev_lt', 'rev_le', 'rev_gt', 'rev_ge', 'rev_eq', 'rev_gtLatest', 'rev_eqLatest']
+
+
+def gen_case(rng, kind=None, nG=None, window=None, model='tp3', no_limit=False):
+    """kind: 'dom' (time condition spelled column-first), 'rev' (the mirrored spellings: constant or LATEST on the
+    left), 'rej' (must be rejected), 'misc'"""
+    nG = rng.choice([0, 1, 1, 2, 2]) if nG is None else nG
+    window = rng.choice([0, 1, 1, 2, 3, 5]) if window is None else window
+    kind = kind or rng.choice(['dom'] * 5 + ['rev', 'rev', 'rej', 'rej', 'misc'])
     model_left = rng.random() < 0.35
     use_alias = rng.random() < 0.8
-    ta, tb = ('ta', 'tb') if use_alias else ('tbl', 'tp3')
+    ta, tb = ('ta', 'tb') if use_alias else ('tbl', model)
     case = dict(kind=kind, nG=nG, window=window, model_left=model_left, flags='0000', limit=None, expect=None)
     cls = rng.choice(TCLASSES)
     if kind == 'rev':
-        cls = rng.choice(['rev_lt', 'rev_le', 'rev_gt', 'rev_ge', 'rev_eq'])
+        cls = rng.choice(REV_CLASSES)
     leaves, pfs = [], []
     tc = None
     case['dates'] = rng.random() < 0.35
@@ -363,7 +405,7 @@ def gen_case(rng, kind=None):
         leaves.append((pf[0], pf[2]))
     rng.shuffle(leaves)
     tail = ''
-    lim = rng.choice([None, None, 1, 2, 7, 0])
+    lim = None if no_limit else rng.choice([None, None, 1, 2, 7, 0])
     absw_override = None
     if kind == 'rej':
         r = rng.choice(['order', 'group', 'having', 'offset', 'foreign', 'foreign_and', 'badop', 'badop2', 'not',
@@ -419,13 +461,13 @@ def gen_case(rng, kind=None):
             col = GROUPS[0] if nG else 't'
             leaves.append(('{a}%s = 1 + {a}x' % col, None)); absw_override = True
     elif kind == 'misc':
-        r = rng.choice(['in_time', 'ge_latest', 'lt_latest', 'btw_latest', 'col_col', 'paren_time'])
+        r = rng.choice(['in_time', 'ge_latest', 'lt_latest', 'btw_latest', 'col_col', 'paren_time', 'latest_gt', 'latest_le'])
         case['misc'] = r
         col = GROUPS[0] if nG else 't'
         leaves = [l for l in leaves if l[1] and '(i t)' not in l[1]]
         extra = {'in_time': '{a}t in (1, 2)', 'ge_latest': '{a}t >= LATEST', 'lt_latest': '{a}t < LATEST',
                  'btw_latest': '{a}t between 1 and LATEST', 'col_col': '{a}%s = {a}t' % col,
-                 'paren_time': '({a}t > 2)'}[r]
+                 'paren_time': '({a}t > 2)', 'latest_gt': 'LATEST > {a}t', 'latest_le': 'LATEST <= {a}t'}[r]
         leaves.append((extra, None)); absw_override = True
         tc = None
     where_sql = ''
@@ -435,9 +477,9 @@ def gen_case(rng, kind=None):
         alias_for = lambda: (ta if rng.random() < 0.85 else tb) + '.'
         where_sql = ' where ' + re.sub(r'\{a\}', lambda m: alias_for(), ws)
         absw = None if (absw_override or '?' in wa) else wa
-    frm = ('mindsdb.tp3 %s join int.tbl %s' if model_left else 'int.tbl %s join mindsdb.tp3 %s')
+    frm = ('mindsdb.%s %%s join int.tbl %%s' if model_left else 'int.tbl %%s join mindsdb.%s %%s') % model
     frm = frm % ((tb, ta) if model_left else (ta, tb)) if use_alias else \
-        ('mindsdb.tp3 join int.tbl' if model_left else 'int.tbl join mindsdb.tp3')
+        ('mindsdb.%s join int.tbl' % model if model_left else 'int.tbl join mindsdb.%s' % model)
     sql = 'select * from ' + frm + where_sql + tail
     if lim is not None:
         sql += ' limit %d' % lim
@@ -447,6 +489,41 @@ def gen_case(rng, kind=None):
     case['_tc'] = tc
     case['_pfs'] = pfs
     return case
+
+
+def gen_multi(rng):
+    """ONE statement with several time-series joins over the same data table: the sides of a UNION [ALL], each
+    possibly inside a sub-select, the whole possibly the source of INSERT / CREATE TABLE; or a single join nested in
+    such a wrapper. The joins use two predictors with the same group columns and different windows, and different
+    time conditions / partition filters. Returns one case per join (same statement text, `join_index`)."""
+    nG = rng.choice([0, 1, 1, 1, 2, 2])
+    models = {'tp3': rng.choice([1, 2, 3]), 'tp4': rng.choice([0, 2, 4])}
+    k = rng.choice([1, 2, 2, 2, 3])
+    parts = []
+    for i in range(k):
+        model = rng.choice(sorted(models))
+        c = gen_case(rng, kind=rng.choice(['dom', 'dom', 'rev']), nG=nG, window=models[model], model=model,
+                     no_limit=True)
+        parts.append(c)
+    texts = []
+    for i, c in enumerate(parts):
+        t = c['sql']
+        if rng.random() < (0.3 if k > 1 else 0.6):
+            t = 'select * from (%s) x%d' % (t, i)
+        texts.append(t)
+    stmt = texts[0]
+    for t in texts[1:]:
+        stmt += rng.choice([' union ', ' union all ']) + t
+    wrap = rng.choice(['', '', '', 'insert', 'create']) if (k > 1 or stmt != parts[0]['sql']) else rng.choice(['insert', 'create'])
+    if wrap == 'insert':
+        stmt = 'insert into int.out (%s)' % stmt
+    elif wrap == 'create':
+        stmt = 'create table int.out (%s)' % stmt
+    out = []
+    for i, c in enumerate(parts):
+        c = dict(c, part_sql=c['sql'], sql=stmt, join_index=i, n_joins=k, models=models, multi=True)
+        out.append(c)
+    return out
 
 
 def gen_table(rng, deep):
@@ -515,7 +592,7 @@ def row_line(rows, nG):
 def otf_expected(case):
     """the user's time condition, alias-stripped, as the library prints it"""
     parse_sql = _imports()[0]
-    q = parse_sql(case['sql'], 'mindsdb')
+    q = parse_sql(case.get('part_sql') or case['sql'], 'mindsdb')
     _, _, _, _, ast, _ = _imports()
     found = []
 
@@ -563,6 +640,8 @@ def probe_case(case, tables):
         d = dict(desc=desc, sig=sig, sql=case['sql'], nG=case['nG'], window=case['window'])
         if case.get('meta'):
             d['meta'] = case['meta']; d['foreign_column'] = case.get('foreign')
+        if case.get('multi'):
+            d.update(join_index=case['join_index'], n_joins=case['n_joins'], models=case['models'], part_sql=case['part_sql'])
         d.update(kw)
         d['class'] = sig
         fails.append(d)
@@ -589,9 +668,13 @@ def probe_case(case, tables):
     nG = case['nG']
     # ---- glue
     try:
-        part, subs, data, di = fetch_steps(plan, nG)
-        ap, jn = plan.steps[di + 1], plan.steps[di + 2]
+        part, subs, data, j = fetch_steps(plan, case)
+        ap, jn = j['ap'], j['jn']
         ok = isinstance(ap, S.ApplyTimeseriesPredictorStep) and isinstance(jn, S.JoinStep) and ap.dataframe == data.result
+        # every join of the statement has its own steps: nothing is shared with another time-series join
+        others = [o for i, o in enumerate(ts_joins(plan)) if i != case.get('join_index', 0)]
+        mine = [id(x) for x in [part, data, ap, jn] + subs if x is not None]
+        ok = ok and not any(id(x) in mine for o in others for x in [o['part'], o['data'], o['ap'], o['jn']] + o['subs'])
         for f in subs:
             q = f.query
             ok = ok and isinstance(f, S.FetchDataframeStep) and f.integration == 'int' and len(q.targets) == 1 \
@@ -611,13 +694,20 @@ def probe_case(case, tables):
         pred_res, data_res = ap.result, data.result
         exp_lr = (pred_res, data_res) if case['model_left'] else (data_res, pred_res)
         ok = ok and (jn.left, jn.right) == exp_lr
+        pushed = [str(x.query) for x in subs + ([part] if part is not None else [])
+                  if x.query.where is not None and 'L' in absW_safe(x.query.where, nG)]
+        if pushed:
+            fail('latest-pushed-down:%s' % case['cls'], 'LATEST is sent to the data source: %s' % pushed[0][:200],
+                 queries=pushed)
         if not ok:
             fail('glue', 'plan shape around the fetch selects is not the expected one',
                  steps=[str(s)[:200] for s in plan.steps])
         # ---- LIMIT after the join
-        nxt = plan.steps[di + 3] if len(plan.steps) > di + 3 else None
+        nxt = j['lim']
         lim = case['limit']
-        has = isinstance(nxt, S.LimitOffsetStep)
+        has = nxt is not None
+        if has and plan.steps.index(nxt) != plan.steps.index(jn) + 1:
+            fail('limit-misplaced', 'LimitOffsetStep is not the step right after the JoinStep')
         if lim is None:
             if has:
                 fail('limit-invented', 'LimitOffsetStep without LIMIT in the query')
@@ -631,12 +721,16 @@ def probe_case(case, tables):
         exp = otf_expected(case)
         act = norm_cond(ap.output_time_filter)
         if exp != act:
-            # the `=` -> `>` rewrite (whatever the spelling of the user's condition) is the class of KF-C15-1
-            eq_gt = exp is not None and act is not None and exp[0] == '=' and act[0] == '>' and exp[1] == act[1]
+            # the `=` -> `>` rewrite of `t = <constant>` (either spelling) is the class of KF-C15-1
+            eq_gt = exp is not None and act is not None and exp[0] == '=' and act[0] == '>' and exp[1] == act[1] \
+                and case['cls'] in ('eq', 'rev_eq')      # exact time against a constant only; `= LATEST` is not KF-C15-1
             fail('otf:eq' if eq_gt else 'otf:%s' % case['cls'],
                  'output_time_filter is %r, the user\'s time condition is %r' % (
                      str(ap.output_time_filter) if ap.output_time_filter is not None else None, exp),
                  expected=exp, actual=act)
+    except GlueError as e:
+        fail('glue', 'plan shape: %s' % e, steps=[str(x)[:200] for x in plan.steps])
+        return fails
     except Exception as e:
         fail('glue-exception', 'cannot inspect plan: %s' % traceback.format_exc()[-300:])
         return fails
@@ -760,17 +854,19 @@ def run(chk):
     n_cases = 700 if not deep else 6000
     n_tables = 4 if not deep else 8
     cases = fixed_cases() + collision_cases(rng, 240 if not deep else 1500) + [gen_case(rng) for _ in range(n_cases)]
+    for _ in range(150 if not deep else 1500):      # statements with more than one time-series join
+        cases += gen_multi(rng)
     dist = {}
     plines, pmeta, elines, emeta = [], [], [], []
     unabs = 0
     for case in cases:
-        key = '%s/%s' % (case['kind'], case.get('cls') or case.get('rej') or case.get('misc'))
+        key = '%s%s/%s' % ('multi-' if case.get('multi') else '', case['kind'], case.get('cls') or case.get('rej') or case.get('misc'))
         dist[key] = dist.get(key, 0) + 1
-        chk.count(case['sql'] + '|%d|%d' % (case['nG'], case['window']))
+        chk.count(case['sql'] + '|%d|%d|%d' % (case['nG'], case['window'], case.get('join_index', 0)))
         # --- the model input is abstracted from the *parsed query* (not from the generator's own idea of it)
         parse_sql = _imports()[0]
         try:
-            q = parse_sql(case['sql'], 'mindsdb')
+            q = parse_sql(case.get('part_sql') or case['sql'], 'mindsdb')
             if case.get('meta'):
                 raise Unabstractable('name-collision stream is probe-only')
             aw = None if q.where is None else absW(q.where, case['nG'])
@@ -799,7 +895,7 @@ def run(chk):
         # --- eval stream: real selects on sqlite vs model evalSel
         if plan is not None and case['kind'] in ('dom', 'rev') and rng.random() < (0.5 if quick else 1.0):
             try:
-                part, subs, data, di = fetch_steps(plan, case['nG'])
+                part, subs, data, j = fetch_steps(plan, case)
                 rows = tables[0]
                 dates = bool(case.get('dates'))
                 db = make_db(rows, dates)
@@ -869,11 +965,12 @@ def replay(path):
         print(json.dumps(data, indent=1)[:3000])
         return 1
     print('failure:', json.dumps({k: v for k, v in f.items() if k not in ('class',)}, default=str)[:1500])
-    case = dict(sql=f['sql'], nG=f['nG'], window=f['window'], meta=f.get('meta'))
+    case = dict(sql=f['sql'], nG=f['nG'], window=f['window'], meta=f.get('meta'), models=f.get('models'),
+                join_index=f.get('join_index', 0), n_joins=f.get('n_joins', 1))
     line, plan, err = canon_real(case)
     print('real plan now:', line, err or '')
     if f.get('table') is not None and plan is not None:
-        part, subs, data_step, di = fetch_steps(plan, f['nG'])
+        part, subs, data_step, j = fetch_steps(plan, dict(nG=f['nG'], join_index=f.get('join_index', 0), n_joins=f.get('n_joins', 1)))
         db = make_db([tuple(r) for r in f['table']], bool(f.get('dates')))
         pd = dict(zip(GROUPS, f.get('partition', [])))
         got = []
